@@ -269,6 +269,10 @@ pub fn my_err_generic<E: From<MyErr>>(s: &str) -> E {
     E::from(my_err(s))
 }
 
+/// what the unrelated inherent methods of the `inherent-methods` declaration context return
+#[derive(Debug, Clone, Copy, PartialEq, Eq)]
+pub struct Hijack;
+
 pub fn my_err_calls() -> u64 {
     MY_ERR_CALLS.with(|c| c.get())
 }
